@@ -32,6 +32,7 @@ import (
 	"go.uber.org/zap"
 
 	"github.com/mimiro-io/datahub/internal/server"
+	"github.com/mimiro-io/datahub/internal/verifhook"
 	egdm "github.com/mimiro-io/entity-graph-data-model"
 )
 
@@ -603,6 +604,7 @@ func (javascriptTransform *JavascriptTransform) transformEntities(
 	entities []*server.Entity,
 	jobTag string,
 ) ([]*server.Entity, error) {
+	verifhook.Access(javascriptTransform, "JavascriptTransform.Runtime", true)
 	var transformFunc func(entities []*server.Entity) (interface{}, error)
 	err := javascriptTransform.Runtime.ExportTo(javascriptTransform.Runtime.Get("transform_entities"), &transformFunc)
 	if err != nil {
